@@ -52,6 +52,12 @@ def cases(tier, seed):
             d.update({"fields": ["temp", "density", "Z"], "payload": "affidx", "seed": seed,
                       "layout": [scope.layouts(len(b), 'idrev')[-1] for b in mesh["levels"]]})
             out.append({"desc": d, "w": len(mesh["levels"]) ** 2})
+    # seven levels towards the far corner, twelve fields: FAB header lines longer than 100 bytes
+    d = dict(scope.deep_corner_mesh())
+    d.update(list(scope.geometries(3))[(seed + 1) % 6])
+    d.update({"fields": ["temp", "density", "Z"] + ["p%d" % i for i in range(9)], "payload": "affidx", "seed": seed,
+              "layout": [scope.layouts(2, 'idrev')[-1]] * 7})
+    out.append({"desc": d, "w": 30})
     return out
 
 
